@@ -174,6 +174,21 @@ PROPS = {
                       'compiler_error discard the output).',
         'technique': 'writer/reader sibling agreement + must-pass + interval abstract interpretation over resolved MIR (rustc_private driver)',
     },
+    'C11': {
+        'module': 'c11',
+        'explanation': 'Who-may-construct / who-may-write and domination rules over MIR: ObjString has one constructor with one caller and '
+                       'one heap allocation site; new_gc_obj_string allocates only on the miss edge of a look-up made with the same content '
+                       'and the same hash it stores, and always inserts what it allocated; no writer of the content or the cached hash '
+                       'exists and no safe &mut to a managed string can be obtained; the intern table\'s probe loop has a free slot (load '
+                       'factor < 1, power-of-two capacity, mask = capacity - 1) and matches only on equal hash and equal text. Under these '
+                       'conditions handle equality (used by ==, Hash, globals, fields, methods) coincides with content equality.',
+        'assumptions': COMMON_ASSUME + ['the FNV hash and str == of the standard library are functions of the bytes'],
+        'not_decided': ['functional correctness of the open-addressing table over all insertion histories (a model-checking question)'],
+        'level_text': 'Decides I1-I4: the structural conditions under which interning makes identity equal content equality.',
+        'design_ref': 'DESIGN.md section 1, C11',
+        'level_note': 'Trusted: rustc front end + MIR, the extractor, evaluated constants (MAX_LOAD, INIT_CAPACITY).',
+        'technique': 'who-may-construct / who-may-write + dominator rules over resolved MIR (rustc_private driver), compile_fail witness for the constructor visibility',
+    },
 }
 
 NOT_APPLICABLE = {
